@@ -777,6 +777,7 @@ static void own_graphs(void) {
   A = n < 4 ? 4 : n;
   unsigned long long r_g = 0; int r_n = 0, r_trig = -1, r_perm = -1;
   int replaying = vf.replay && sscanf(vf.replay, "own n=%d g=%llu trig=%d perm=%d", &r_n, &r_g, &r_trig, &r_perm) == 4;
+  vf_watchdog(120);
   for (uint64_t g = 0; g < ngraphs; g++) {
     if (replaying && g != r_g) continue;
     int tgt[4][2]; uint64_t x = g;
